@@ -103,9 +103,17 @@ def run(tier):
     quick = tier != 'thorough'
     # E0: the CRC guarantee model-checked on the specification (every 1-bit error, every 2-bit error behind the first
     # header word, every burst pattern up to MaxBurst bits, truncations/extensions of a corpus built by RegpOps)
-    r0 = vf.tlc_must_pass('RegpMC.tla', 'RegpMC.cfg' if quick else 'RegpMCt.cfg', 'regpmc', heap='16g')
+    e1cases = []
+    r0 = vf.tlc_must_pass('RegpMC.tla', 'RegpMC.cfg' if quick else 'RegpMCt.cfg', 'regpmc', heap='16g',
+                          sink=lambda b: e1cases.append(b[3:]) if b.startswith('C;;') else None)
     v.add_tlc(r0)
-    v.notes['e0'] = dict(model='RegpMC.tla', cases=r0.distinct, cfg='RegpMC.cfg' if quick else 'RegpMCt.cfg')
+    # E1: TLC-generated corrupted frames with the allowed observations, replayed on the real receiver
+    res1 = vf.run_scripts('regp', [e1cases[i:i + 200] for i in range(0, len(e1cases), 200)], 'C07', name='mc')
+    v.exec_problems(res1, 'regp')
+    v.cov['traces_validated_against_impl'] += len(e1cases)
+    v.cov['evaluations'] += res1.checked
+    v.cov['samples'].append(dict(kind='E1 case from TLC (RegpMC.tla): corrupted frame | allowed observations', events=e1cases[500:502]))
+    v.notes['e0'] = dict(model='RegpMC.tla', cases=r0.distinct, cfg='RegpMC.cfg' if quick else 'RegpMCt.cfg', e1_cases_replayed=len(e1cases))
     rnd = random.Random(vf.seed())
     ss = list(scripts(rnd, quick))
     vf.trace_flow(v, 'RegpTrace.tla', 'RegpTrace.cfg', 'regp', ss, 'cor')
